@@ -420,3 +420,45 @@ func (an *Analysis) Must(kind string, fn *ssa.Function, isSite func(in ssa.Instr
 	}
 	return rec(fn)
 }
+
+// BoolUnder evaluates a boolean SSA value under an assumption on a pruned CFG: constants, assumed atoms, negations and
+// phis whose live incomings all evaluate to the same truth value. known=false when it cannot be decided.
+func (an *Analysis) BoolUnder(pr *Pruned, assume Assume, v ssa.Value, depth int) (val bool, known bool) {
+	if depth > 6 {
+		return false, false
+	}
+	if b, ok := constBool(v); ok {
+		return b, true
+	}
+	if phi, ok := v.(*ssa.Phi); ok {
+		edges := pr.LivePhiEdges(phi)
+		if len(edges) == 0 {
+			return false, false
+		}
+		first := true
+		var acc bool
+		for _, e := range edges {
+			b, k := an.BoolUnder(pr, assume, e, depth+1)
+			if !k {
+				return false, false
+			}
+			if first {
+				acc, first = b, false
+			} else if acc != b {
+				return false, false
+			}
+		}
+		return acc, true
+	}
+	if assume != nil {
+		if a, neg, ok := an.AtomOf(v); ok {
+			if val, known := assume(a); known {
+				return val != neg, true
+			}
+		}
+	}
+	if t, ok := pr.foldCond(v, 0); ok {
+		return t, true
+	}
+	return false, false
+}
